@@ -66,7 +66,7 @@ func CheckOutsDir(o *Obs, p *pgen.Program, m *pgen.Model, r *Report) {
 		return
 	}
 	gm, ok := got.(map[string]interface{})
-	if !ok {
+	if !ok && !m.TopMapped {
 		r.add("C13", "top-outs-shape", "post-processed top-level _outs is not an object", nil)
 		return
 	}
@@ -83,37 +83,71 @@ func CheckOutsDir(o *Obs, p *pgen.Program, m *pgen.Model, r *Report) {
 	outsDir := filepath.Join(o.Case.PsDir, "outs")
 	// Expected: the outputs as recorded just before post-processing.
 	pre, _ := o.CanonValue(o.Case.PrePostprocessOuts()).(map[string]interface{})
-	for _, out := range top.Outs {
-		exp := m.TopOuts[out.Name]
-		if pre != nil {
-			if pv, ok := pre[out.Name]; ok {
-				exp = pv
+	// one record per fork for a mapped top-level call (each fork's files
+	// live under outs/<index or key>/), else the single record
+	type record struct {
+		where, dir string
+		got, exp   map[string]interface{}
+	}
+	var records []record
+	if m.TopMapped {
+		preEls := map[string]map[string]interface{}{}
+		for _, pe := range topElements(m, top, o.CanonValue(o.Case.PrePostprocessOuts())) {
+			if pe.problem == "" {
+				preEls[pe.where] = pe.got
 			}
 		}
-		gv, ok := gm[out.Name]
-		if !ok {
-			r.add("C13", "top-out-absent", "top-level output "+out.Name+" absent from post-processed _outs", nil)
-			continue
+		for _, el := range topElements(m, top, got) {
+			if el.problem != "" {
+				r.add("C13", "top-outs-shape", "post-processed "+el.problem, nil)
+				continue
+			}
+			exp := el.exp
+			if pm := preEls[el.where]; pm != nil {
+				exp = pm
+			}
+			records = append(records, record{el.where + ".", el.dir, el.got, exp})
 		}
-		n0 := len(leaves)
-		collectLeaves(p, r, out.Name, out.Type, exp, gv, filepath.Join(outsDir, leafName(out.Name, out.OutName, out.Type)), &leaves, false)
-		how := "other"
-		for _, b := range top.Ret {
-			if b.Id == out.Name {
-				switch {
-				case b.Exp.Kind == pgen.ERefCall && len(b.Exp.Path) == 1:
-					how = "direct-ref"
-				case b.Exp.Kind == pgen.ERefCall && len(b.Exp.Path) > 1:
-					how = "struct-field-projection"
-				case b.Exp.Kind == pgen.ERefSelf:
-					how = "pipeline-input"
-				default:
-					how = "literal"
+	} else {
+		exp := map[string]interface{}{}
+		for _, out := range top.Outs {
+			exp[out.Name] = m.TopOuts[out.Name]
+			if pre != nil {
+				if pv, ok := pre[out.Name]; ok {
+					exp[out.Name] = pv
 				}
 			}
 		}
-		for i := n0; i < len(leaves); i++ {
-			leaves[i].how = how
+		records = append(records, record{"", "", gm, exp})
+	}
+	for _, rec := range records {
+		for _, out := range top.Outs {
+			exp := rec.exp[out.Name]
+			gv, ok := rec.got[out.Name]
+			if !ok {
+				r.add("C13", "top-out-absent", "top-level output "+rec.where+out.Name+" absent from post-processed _outs", nil)
+				continue
+			}
+			n0 := len(leaves)
+			collectLeaves(p, r, rec.where+out.Name, out.Type, exp, gv, filepath.Join(outsDir, rec.dir, leafName(out.Name, out.OutName, out.Type)), &leaves, false)
+			how := "other"
+			for _, b := range top.Ret {
+				if b.Id == out.Name {
+					switch {
+					case b.Exp.Kind == pgen.ERefCall && len(b.Exp.Path) == 1:
+						how = "direct-ref"
+					case b.Exp.Kind == pgen.ERefCall && len(b.Exp.Path) > 1:
+						how = "struct-field-projection"
+					case b.Exp.Kind == pgen.ERefSelf:
+						how = "pipeline-input"
+					default:
+						how = "literal"
+					}
+				}
+			}
+			for i := n0; i < len(leaves); i++ {
+				leaves[i].how = how
+			}
 		}
 	}
 	// which derived paths share a source file
